@@ -276,16 +276,17 @@ SelSelectors == {<<"Foo", "Bar", "A">>, <<"Foo", "*", "A">>, <<"Foo", "Bar", "*"
 SelAtoms == {Atom(s, "<", IntV(2)) : s \in SelSelectors} \cup {Atom(s, "", NoLit) : s \in SelSelectors}
 
 \* (c) boolean structure: three atoms whose verdict is T / F / X independently
-TreeAtoms(k) == IF k = "LLUDP"
-                THEN {Atom(<<"Foo", "Bar", "A">>, "<", IntV(2)), Atom(<<"Foo", "*", "B">>, "~=", StrV(S_a)),
-                      Atom(<<"Meta", "Q">>, "&", IntV(1))}
-                ELSE {Atom(<<"Meta", "Q">>, "&", IntV(1)), Atom(<<"Meta", "R">>, "^=", StrV(S_a)), Atom(<<"Foo">>, "", NoLit)}
+TreeAtoms(k) == CASE k = "LLUDP" -> {Atom(<<"Foo", "Bar", "A">>, "<", IntV(2)), Atom(<<"Foo", "*", "B">>, "~=", StrV(S_a)),
+                                    Atom(<<"Meta", "Q">>, "&", IntV(1))}
+                  [] k = "EQ2" -> {Atom(<<"Meta", "Q">>, "&", IntV(1)), Atom(<<"Foo">>, "", NoLit)}     \* two atoms: deeper trees
+                  [] OTHER -> {Atom(<<"Meta", "Q">>, "&", IntV(1)), Atom(<<"Meta", "R">>, "^=", StrV(S_a)), Atom(<<"Foo">>, "", NoLit)}
 TreeEntries(k) ==
     IF k = "LLUDP"
     THEN {Ent("LLUDP", "Foo", <<MetaKV("Q", q)>>, <<Blk("Bar", <<Var("A", a)>>), Blk("Baz", <<Var("B", b)>>)>>) :
             a \in {IntV(1), IntV(3), StrV(S_a)}, b \in {StrV(S_ba), StrV(S_b), IntV(1)}, q \in {IntV(1), IntV(2), StrV(S_a)}}
-    ELSE {Ent(k, n, <<MetaKV("Q", q), MetaKV("R", r)>>, <<>>) :
-            n \in {"Foo", "Zed"}, q \in {IntV(1), IntV(2), StrV(S_a)}, r \in {StrV(S_ab), StrV(S_b), IntV(1)}}
+    ELSE {Ent(IF k = "EQ2" THEN "EQ" ELSE k, n, <<MetaKV("Q", q), MetaKV("R", r)>>, <<>>) :
+            n \in {"Foo", "Zed"}, q \in {IntV(1), IntV(2), StrV(S_a)},
+            r \in IF k = "EQ2" THEN {StrV(S_ab)} ELSE {StrV(S_ab), StrV(S_b), IntV(1)}}
 
 \* (d) grammar: every token string up to TokLen over this alphabet
 GramToks == {TAtom(Atom(<<"Foo">>, "", NoLit)), TAtom(Atom(<<"Meta", "Q">>, "==", IntV(1))),
@@ -415,8 +416,8 @@ ParseRender == IsP("tree") => /\ Parse(RenderMin(probe[2])) = <<"ok", probe[2]>>
                               /\ Parse(RenderFull(probe[2])) = <<"ok", probe[2]>>
 \* the entry family realises every combination of T / F / X (inapplicable) of the atoms
 V3(a, e) == IF AtomTrue(a, e) THEN "T" ELSE IF AtomHasX(a, e) THEN "X" ELSE "F"
-ValuationsComplete == IsP("tree") =>
-    Cardinality({[a \in TreeAtoms(TreeKind) |-> V3(a, e)] : e \in TreeEntries(TreeKind)}) = (IF TreeKind = "LLUDP" THEN 27 ELSE 18)
+ValuationsComplete == (IsP("tree") /\ probe[2][1] = "atom") =>      \* (a fact about the family: evaluated on the leaf probes only)
+    Cardinality({[a \in TreeAtoms(TreeKind) |-> V3(a, e)] : e \in TreeEntries(TreeKind)}) = (CASE TreeKind = "LLUDP" -> 27 [] TreeKind = "EQ2" -> 6 [] OTHER -> 18)
 \* a parsed token string renders back to something that parses to the same tree
 ParseStable == IsP("toks") => LET p == Parse(probe[2]) IN
                    p[1] = "ok" => /\ Parse(RenderMin(p[2])) = p
